@@ -215,6 +215,9 @@ SPEC_BUILTINS = {'old': spec_old, 'forall': spec_forall, 'exists': spec_exists, 
 # ------------------------------------------------------------------------------------------------
 
 def opaque_attr(obj, name):
+    if obj.name.startswith('class:') and obj.payload is not None:
+        cls = obj.name[6:]
+        return Opaque('func:%s.%s' % (cls, name), (obj.payload[0], '%s.%s' % (cls, name)))
     full = obj.name + '.' + name
     if full in ('np.inf', 'math.inf', 'np.Inf'):
         return float('inf')
